@@ -3,8 +3,8 @@
 // E (DESIGN 4/C11): K = 1..6 x G in {SO3d, SE2d, SE3d, Bundle<SO3d,Vector2d>, Vector3d} x cumulative basis matrix in
 //   {Bernstein cumulative, B-spline cumulative (both taken from smooth/polynomial/basis.hpp), one integer upper-
 //   triangular test matrix} x u in {0, 1e-9, 1/4, 1/2, 1-1e-9, 1} x every K-tuple of differences over a difference
-//   alphabet (8 entries for K <= 3, 4 entries for K >= 4: zero, 1e-5-norm, O(1) rotations and translations, all
-//   inside the injectivity radius) x every admissible combination of optional outputs. Two spaces per (G, K):
+//   alphabet (8 entries for K <= 3, 4 entries for K >= 4 [quick tier: 3 entries for K >= 5]: zero, 1e-5-norm, O(1)
+//   rotations and translations, all inside the injectivity radius) x every admissible combination of optional outputs. Two spaces per (G, K):
 //   "eval" (cspline_eval_vs / _gs: value, vel, acc, jer) and "jac" (cspline_eval_dg_dvs / _dgs: Jacobians of
 //   value, velocity, acceleration).
 //
@@ -299,20 +299,43 @@ struct Curve
 /// Newton iteration for v = log(X) on the matrix exponential, right-sided correction
 /// exp(v) exp(d) = exp(v + Jrinv(v) d + O(d^2)); Jinv may be approximate (it only affects the contraction rate);
 /// the result is accepted on its residual |expm(hat v) - X| only.
-template<typename R>
-L newton_log(const Mat<L, R::Dim> & X, const Mat<L, R::Dof> & Jinv, L * v, int iters)
+template<typename R, typename S = L>
+L newton_log(const Mat<S, R::Dim> & X, const Mat<L, R::Dof> & Jinv, S * v, int iters)
 {
   constexpr int N = R::Dim, D = R::Dof;
   for (int it = 0; it < iters; ++it) {
-    L nv[D];
+    S nv[D];
     for (int c = 0; c < D; ++c) nv[c] = -v[c];
-    const auto Rm = ref::mul(expmX<L, N>(R::template hat<L>(nv)), X);
-    L d[D];
-    R::template vee<L>(logmX<L, N>(Rm), d);
-    const auto dv = mulv<D>(Jinv, d);
-    for (int c = 0; c < D; ++c) v[c] += dv(c, 0);
+    const auto Rm = ref::mul(expmX<S, N>(R::template hat<S>(nv)), X);
+    S d[D];
+    R::template vee<S>(logmX<S, N>(Rm), d);
+    for (int i = 0; i < D; ++i)
+      for (int j = 0; j < D; ++j) v[i] += S(Jinv(i, j)) * d[j];
   }
-  return (expmX<L, N>(R::template hat<L>(v)) - X).maxabs() / std::max((L)1, X.maxabs());
+  return (expmX<S, N>(R::template hat<S>(v)) - X).maxabs() / std::max((L)1, X.maxabs());
+}
+
+// ------------------------------------------------------------------ self-check bookkeeping
+/// self-check with a measured value: records the worst value per name (written to the evidence notes) and reports
+/// the value when it fails (harness error, exit 2)
+inline std::map<std::string, std::pair<L, L>> & sc_worst()
+{
+  static std::map<std::string, std::pair<L, L>> m;
+  return m;
+}
+inline void sc(const char * name, L value, L thr)
+{
+  auto & w = sc_worst()[name];
+  w.first  = std::max(w.first, value == value ? value : (L)INFINITY);
+  w.second = thr;
+  if (!(value < thr)) fprintf(stderr, "C11 self-check '%s': value %.3Le, threshold %.3Le\n", name, value, thr);
+  mc::selfcheck(name, value < thr);
+}
+inline void sc_note(const std::string & key)
+{
+  std::string j = "{";
+  for (auto & [k, v] : sc_worst()) j += (j.size() > 1 ? "," : "") + ("\"" + mc::json_escape(k) + "\":") + mc::fmt("{\"worst\":%.3Le,\"threshold\":%.3Le}", v.first, v.second);
+  mc::note("C11 self-check worst values " + key, j + "}");
 }
 
 // ------------------------------------------------------------------ difference alphabet
@@ -397,6 +420,8 @@ struct Setup
   Mat<L, N> G0;   // anchor (reference, unrounded)
   L g0tan[D];
 
+  /// computed in __float128 (the increments are divided by eps in the Jacobian differences); the initial guess is the
+  /// first-order one from the reference Jacobians, the result is accepted on its residual
   void build_tables(L e)
   {
     eps = e;
@@ -404,31 +429,36 @@ struct Setup
     dminus.assign(alpha.size(), {});
     for (size_t a = 0; a < alpha.size(); ++a) {
       L d[D];
-      for (int c = 0; c < D; ++c) d[c] = alpha[a][size_t(c)];
-      const auto Ea = expmX<L, N>(R::template hat<L>(d));
+      Q dq[D];
+      for (int c = 0; c < D; ++c) {
+        d[c]  = alpha[a][size_t(c)];
+        dq[c] = Q(alpha[a][size_t(c)]);
+      }
+      const auto Ea = expmX<Q, N>(R::template hat<Q>(dq));
       const auto Jl = ref::inv(ref::dl_exp_ref<R>(d));
       for (int c = 0; c < D; ++c)
         for (int q = 0; q < 4; ++q) {
           L pe[D] = {}, ne[D] = {};
-          pe[c]   = KS[q] * eps;
-          ne[c]   = -KS[q] * eps;
+          Q peq[D] = {}, neq[D] = {};
+          pe[c]  = KS[q] * eps;
+          ne[c]  = -KS[q] * eps;
+          peq[c] = Q(pe[c]);
+          neq[c] = Q(ne[c]);
           {
-            const auto X = ref::mul(Ea, expmX<L, N>(R::template hat<L>(pe)));
-            L v[D];
+            const auto X = ref::mul(Ea, expmX<Q, N>(R::template hat<Q>(peq)));
+            Q v[D];
             const auto g = mulv<D>(Jinv[a], pe);
-            for (int i = 0; i < D; ++i) v[i] = d[i] + g(i, 0);
-            const L res = newton_log<R>(X, Jinv[a], v, 4);
-            mc::selfcheck("reference log residual (perturbed, right)", res < 1e-17L);
-            for (int i = 0; i < D; ++i) dplus[a][size_t(c)][size_t(q)][size_t(i)] = v[i] - d[i];
+            for (int i = 0; i < D; ++i) v[i] = dq[i] + Q(g(i, 0));
+            sc("reference log residual (perturbed, right, __float128) (1e-30)", newton_log<R, Q>(X, Jinv[a], v, 8), 1e-30L);
+            for (int i = 0; i < D; ++i) dplus[a][size_t(c)][size_t(q)][size_t(i)] = (L)(v[i] - dq[i]);
           }
           {
-            const auto X = ref::mul(expmX<L, N>(R::template hat<L>(ne)), Ea);
-            L v[D];
+            const auto X = ref::mul(expmX<Q, N>(R::template hat<Q>(neq)), Ea);
+            Q v[D];
             const auto g = mulv<D>(Jl, ne);
-            for (int i = 0; i < D; ++i) v[i] = d[i] + g(i, 0);
-            const L res = newton_log<R>(X, Jinv[a], v, 4);
-            mc::selfcheck("reference log residual (perturbed, left)", res < 1e-17L);
-            for (int i = 0; i < D; ++i) dminus[a][size_t(c)][size_t(q)][size_t(i)] = v[i] - d[i];
+            for (int i = 0; i < D; ++i) v[i] = dq[i] + Q(g(i, 0));
+            sc("reference log residual (perturbed, left, __float128) (1e-30)", newton_log<R, Q>(X, Jinv[a], v, 8), 1e-30L);
+            for (int i = 0; i < D; ++i) dminus[a][size_t(c)][size_t(q)][size_t(i)] = (L)(v[i] - dq[i]);
           }
         }
     }
@@ -693,10 +723,10 @@ void selfcheck_stencil(const Basis & b, int K, const L (*v)[R::Dof], const Mat<L
     s2 = std::max(s2, std::fabs(J.c[2].d[i]));
     s3 = std::max(s3, std::fabs(J.c[3].d[i]));
   }
-  mc::selfcheck("long double curve = __float128 curve (1e-16)", relL(e0, J.c[0].maxabs()) < 1e-16L);
-  mc::selfcheck("jet order 1 = __float128 7-point stencil (1e-11)", relL(e1, s1) < 1e-11L);
-  mc::selfcheck("jet order 2 = __float128 7-point stencil (1e-11)", relL(e2, s2) < 1e-11L);
-  mc::selfcheck("jet order 3 = __float128 7-point stencil (1e-11)", relL(e3, s3) < 1e-11L);
+  sc("long double curve = __float128 curve (1e-16)", relL(e0, J.c[0].maxabs()), 1e-16L);
+  sc("jet order 1 = __float128 7-point stencil (1e-11)", relL(e1, s1), 1e-11L);
+  sc("jet order 2 = __float128 7-point stencil (1e-11)", relL(e2, s2), 1e-11L);
+  sc("jet order 3 = __float128 7-point stencil (1e-11)", relL(e3, s3), 1e-11L);
   // body frame: x(t) = vee logm(M(u)^-1 M(u+t)); vel = x', acc = x'', jer = x''' - [x', x'']/2
   const auto gi = ref::inv(g[3]);
   Q x[7][D];
@@ -726,9 +756,9 @@ void selfcheck_stencil(const Basis & b, int K, const L (*v)[R::Dof], const Mat<L
     sa = std::max(sa, std::fabs(da[c]));
     sj = std::max(sj, std::fabs(dj[c]));
   }
-  mc::selfcheck("body velocity = stencil of vee logm(g(u)^-1 g(u+t)) (1e-11)", relL(ev, sv) < 1e-11L);
-  mc::selfcheck("body acceleration = stencil of vee logm(g(u)^-1 g(u+t)) (1e-11)", relL(ea, sa) < 1e-11L);
-  mc::selfcheck("body jerk = stencil of vee logm(g(u)^-1 g(u+t)) - [vel,acc]/2 (1e-11)", relL(ej, sj) < 1e-11L);
+  sc("body velocity = stencil of vee logm(g(u)^-1 g(u+t)) (1e-11)", relL(ev, sv), 1e-11L);
+  sc("body acceleration = stencil of vee logm(g(u)^-1 g(u+t)) (1e-11)", relL(ea, sa), 1e-11L);
+  sc("body jerk = stencil of vee logm(g(u)^-1 g(u+t)) - [vel,acc]/2 (1e-11)", relL(ej, sj), 1e-11L);
 }
 
 /// curves with known derivatives; finite-difference Jacobians against known Jacobians
@@ -759,7 +789,7 @@ void selfcheck_closed_forms(const Setup<G> & S)
           e = std::max(e, std::fabs(vel[c] - v[1][c]));
           z = std::max({z, std::fabs(acc[c]), std::fabs(jer[c])});
         }
-        mc::selfcheck("exp(u v): vel = v, acc = jer = 0 (1e-15)", e < 1e-15L * (1 + S.tm[ia]) && z < 1e-15L * (1 + S.tm[ia]) * (1 + S.tm[ia]));
+        sc("exp(u v): vel = v, acc = jer = 0 (1e-15)", std::max(e / (1 + S.tm[ia]), z / ((1 + S.tm[ia]) * (1 + S.tm[ia]))), 1e-15L);
         // d/dv exp(B v) = B dr_exp(B v) with B = 0.75 (constant polynomial), reference phi1
         Basis b2;
         b2.name    = "const";
@@ -777,7 +807,7 @@ void selfcheck_closed_forms(const Setup<G> & S)
             ej = std::max(ej, std::fabs(o.dg[size_t(i * D + j)] - Jr(i, j)));
             zz = std::max({zz, std::fabs(o.dvel[size_t(i * D + j)]), std::fabs(o.dacc[size_t(i * D + j)])});
           }
-        mc::selfcheck("4-point difference of exp(B v) = B dr_exp_ref(B v) (1e-13)", relL(ej, Jr.maxabs()) < 1e-13L && zz < 1e-13L);
+        sc("4-point difference of exp(B v) = B dr_exp_ref(B v) (1e-13)", std::max(relL(ej, Jr.maxabs()), zz), 1e-13L);
       }
       // two exponentials exp(u a) exp(u b): vel = w + b, acc = -ad_b w, jer = ad_b^2 w, w = Ad_{exp(-u b)} a
       {
@@ -808,7 +838,7 @@ void selfcheck_closed_forms(const Setup<G> & S)
           e  = std::max({e, std::fabs(vel[c] - (w[c] + v[2][c])), std::fabs(acc[c] + a1(c, 0)), std::fabs(jer[c] - a2(c, 0))});
           sc = std::max({sc, std::fabs(w[c]), std::fabs(a1(c, 0)), std::fabs(a2(c, 0))});
         }
-        mc::selfcheck("exp(u a) exp(u b): vel, acc, jer closed form (1e-15)", e / sc < 1e-15L);
+        c11::sc("exp(u a) exp(u b): vel, acc, jer closed form (1e-15)", e / sc, 1e-15L);
       }
       // gs form with Btilde_1 = 1: the curve is g_1, so dg/dg_1 = I, dg/dg_0 = 0 (validates the perturbed-log tables)
       {
@@ -824,7 +854,7 @@ void selfcheck_closed_forms(const Setup<G> & S)
         L e = 0;
         for (int i = 0; i < D; ++i)
           for (int j = 0; j < 2 * D; ++j) e = std::max(e, std::fabs(o.dg[size_t(i * 2 * D + j)] - ((j == D + i) ? 1 : 0)));
-        mc::selfcheck("gs form with Btilde = 1: dg/dg_1 = I, dg/dg_0 = 0 (1e-13)", e < 1e-13L);
+        sc("gs form with Btilde = 1: dg/dg_1 = I, dg/dg_0 = 0 (1e-13)", e, 1e-13L);
       }
     }
 }
@@ -865,7 +895,7 @@ void selfchecks(const Setup<G> & S0, const Bases<K> & BS, uint64_t nA)
           return e / m;
         };
         const L e = std::max({cmp(a1.dg, a2.dg), cmp(a1.dvel, a2.dvel), cmp(a1.dacc, a2.dacc), cmp(b1.dg, b2.dg), cmp(b1.dvel, b2.dvel), cmp(b1.dacc, b2.dacc)});
-        mc::selfcheck("Jacobian differences: step eps vs 2 eps (1e-12)", e < 1e-12L);
+        sc("Jacobian differences: step eps vs 2 eps (1e-12)", e, 1e-12L);
       }
   }
   (void)D;
@@ -1009,6 +1039,7 @@ void run_lo(const std::string & tn)
   run<1, G>(tn, S);
   run<2, G>(tn, S);
   run<3, G>(tn, S);
+  sc_note(tn + " K1-3");
 }
 template<typename G>
 void run_hi(const std::string & tn)
@@ -1018,6 +1049,7 @@ void run_hi(const std::string & tn)
   run<4, G>(tn, S);
   run<5, G>(tn, S);
   run<6, G>(tn, S);
+  sc_note(tn + " K4-6");
 }
 
 }  // namespace c11
